@@ -40,12 +40,20 @@ claim("C03", "proof",
       "builds at start-up (dumped from the implementation on every run into Gen/MarchTables_gen.v), Dual<3>::walk + "
       "DCMesher::load on a UNIFORM grid gives a watertight, consistently oriented mesh for every filled/empty assignment of "
       "the lattice points and every choice of quad diagonals (a 3 x 4096 face-configuration sweep over the real tables + a "
-      "local-support regrouping), with every triangle corner a real patch vertex.  NOT proved: grids with cells of different "
-      "octree levels (minimal-edge rule, collapsed cells, topology-safe collapse tests) and that libfive's own tetrahedral "
-      "complex satisfies the marching-tets hypothesis.  Those are decided by the oracle: "
+      "local-support regrouping), with every triangle corner a real patch vertex.  Simplex mesher on a UNIFORM grid: the "
+      "executable model of SimplexMesher::load<A> (11 subspace vertices per lattice edge, cell_vertices / tet_vertices as read "
+      "from the C++, 16 tets per edge, 48 per cell, vertices as points of the doubled lattice) builds a complex in which every "
+      "tet is a flag corner < edge < face < cell, no two tets share their vertices, and every surface-carrying face occurs "
+      "once with each orientation (orientation sweep over the real tables + translation invariance), so the marching-tets "
+      "hypothesis is DISCHARGED there: the mesh is watertight, consistently oriented and edge-manifold for every inside / "
+      "outside assignment that keeps the outermost cell layer empty (hypothesis shown necessary).  NOT proved: grids with "
+      "cells of different octree levels (minimal-edge rule, collapsed cells, topology-safe collapse tests, the simplex "
+      "mesher's minimum-level vertex selection).  Those are decided by the oracle: "
       "Mesh::render of random closed CSG solids (rotated primitives, sharp and smooth) x 3 algorithms x workers 1..16 x "
       "resolutions x merging on/off: edge balance, no repeated vertex, valid indices, no unreferenced vertex, edge-manifold "
-      "for simplex / hybrid.",
+      "for simplex / hybrid.  Ties for the grid models: uniform-grid renders (max_err = -1) of the implementation against the "
+      "extracted models on the implementation's own lattice / subspace-vertex signs (triangle and vertex counts for dual "
+      "contouring, triangle counts for the simplex mesher).  Known finding: holes of the simplex mesher when cells collapse.",
       "Trusted: Coq kernel (no axioms); translate/gen_tables.py; harness audit_mesh; OS-sampled interleavings (no schedule "
       "perturbation hook was added for this property).",
       "source-to-Coq table translation + Coq proof (finite sweep over the table + face-pairing argument); runtime mesh audit",
